@@ -18,6 +18,9 @@ def BiCGSTAB_reset(Op,rhs,x0,eps=1e-6,nmax=40):
     """ 
     # initial residual
     r = rhs - Op.matvec(x0)
+    if not tn.any(r != 0):
+        # x0 already solves the system: there is no shadow residual r0p with (r, r0p) != 0 to look for
+        return x0, True, 0, tn.linalg.norm(r)
     
     # choose rop
     r0p = tn.rand(r.shape,dtype = x0.dtype)
